@@ -320,6 +320,13 @@ pub fn build_sweep(tier: Tier) -> Vec<IoRun> {
             o3.pre = Pre::Garbage;
             push_ops(vec![o1, o2, o3], &mut runs);
         }
+        // a relative destination while the working directory has been removed
+        {
+            let mut o = mk(&w, PlanSpec::default(), vec![], None);
+            o.target = Target::Relative("rel-gone.out".into());
+            o.cwd = 2;
+            push_ops(vec![o], &mut runs);
+        }
         // crash and restart: the writer dies right before each of its system calls (plain and
         // dribbling device); afterwards a clean - smaller or equal - export goes to the same path
         let small = Workload { kind: w.kind, qr: QrCfg::new(b"https://example.com/".to_vec()), setters: vec![] };
